@@ -4,7 +4,6 @@ A registry for units that can be added to and modified.
 
 """
 
-import copy
 import json
 from functools import lru_cache
 from hashlib import md5
@@ -265,8 +264,12 @@ class UnitRegistry:
         return equiv
 
     def __deepcopy__(self, memodict=None):
-        lut = copy.deepcopy(self.lut)
-        return type(self)(lut=lut)
+        # rows are immutable tuples holding immutable values, so a copy of the
+        # dict is a full copy (and the dimensions stay unyt's own singletons)
+        lut = self.lut.copy()
+        return type(self)(
+            lut=lut, add_default_symbols=False, unit_system=self.unit_system
+        )
 
 
 class _NonModifiableUnitRegistry(UnitRegistry):
